@@ -7,7 +7,7 @@
 (*     step on what the code really did                                    *)
 (* Environment: TRACE=<file.ndjson>                                        *)
 (***************************************************************************)
-EXTENDS TraceBase, MonC07, MonC08, MonC09, MonC10, MonC11, MonC13, MonC19
+EXTENDS TraceBase, MonC07, MonC08, MonC09, MonC10, MonC11, MonC12, MonC13, MonC19
 
 On(name) == name \in DOMAIN IOEnv /\ IOEnv[name] = "1"
 
@@ -28,7 +28,7 @@ Init == /\ l = 1 /\ nodes = <<>> /\ env = EnvInit /\ mon = <<>>
         /\ conf = [calls |-> 0, ndiv |-> 0, divs |-> <<>>]
         /\ viol = [n |-> 0, list |-> <<>>]
 
-MonInit == [C07 |-> C07Init, C11 |-> C11Init, C08 |-> C08Init, C09 |-> C09Init, C10 |-> C10Init, C13 |-> C13Init, C19 |-> C19Init]
+MonInit == [C07 |-> C07Init, C11 |-> C11Init, C12 |-> C12Init, C08 |-> C08Init, C09 |-> C09Init, C10 |-> C10Init, C13 |-> C13Init, C19 |-> C19Init]
 
 ObsOf(e, prev) ==
     [node |-> e.node, call |-> e.call, args |-> e.args, res |-> e.res, out |-> e.out,
@@ -43,6 +43,7 @@ MonStep(m, o) ==
      C08 |-> IF On("MON_C08") THEN C08Step(m.C08, o) ELSE m.C08,
      C09 |-> IF On("MON_C09") THEN C09Step(m.C09, o) ELSE m.C09,
      C10 |-> IF On("MON_C10") THEN C10Step(m.C10, o) ELSE m.C10,
+     C12 |-> IF On("MON_C12") THEN C12Step(m.C12, o) ELSE m.C12,
      C13 |-> IF On("MON_C13") THEN C13Step(m.C13, o) ELSE m.C13,
      C19 |-> IF On("MON_C19") THEN C19Step(m.C19, o) ELSE m.C19]
 
